@@ -423,3 +423,4 @@ S(_P + "pdffont.get_widths", "cast(int, char1) + i", "r only holds values that p
 S(_P + "pdffont.get_widths", "cast(int, char2) + 1", "under isinstance(char2, int)")
 S(_P + "pdffont.get_widths2", "cast(int, char1) + i", "r only holds values that passed isinstance(v, (int, float))")
 S(_P + "image.BMPWriter.__init__", "struct.pack('BBBx', i, i, i)", "i ranges over (0, 255) / range(256)")
+S(_P + "pdfdocument.PDFStandardSecurityHandlerV4._unpad_aes", "bytes((n,))", "n is an element of a bytes object (0..255), further restricted to 1..16")
